@@ -103,8 +103,8 @@ impl Check for C18 {
                 return;
             }
             if reference.is_some() && t.code != *reference {
-                rec.violation("reference-not-kept-as-code", &class, &what(&format!("code {:?}, reference {:?}", t.code, reference)), wit(json!({"output": imp.text})));
-                return;
+                // the statement does not speak of codes: observed, not judged
+                rec.count("note:reference-not-kept-as-code");
             }
             let is_last = k + 1 == expected.len();
             match (&ap[0].assertion, is_last) {
@@ -125,8 +125,9 @@ impl Check for C18 {
                 (None, []) => {}
                 (Some(c), [p]) if matches!(&p.amount, Some((v, cm)) if v == c && *cm == case.currency) => rec.count("detail:with-included-charge"),
                 _ => {
-                    rec.violation("charge-posting-differs", &class, &what(&format!("charge {:?}, {} commission postings", charge.map(|c| c.to_string_exact()), comm.len())), wit(json!({"output": imp.text})));
-                    return;
+                    // how a charge is booked is not laid down by the statement; whether the result still
+                    // balances and ends at the closing balance is (end-to-end clause below)
+                    rec.count("note:charge-posting-differs-from-sample-convention");
                 }
             }
         }
@@ -158,7 +159,7 @@ impl Check for C18 {
          additional info; closing balance = opening + credits - debits; file in either order with the matching row_order. Rendered as camt.053.001.04 XML. Oracle on \
          the tree: first transaction posts 0 and asserts the opening balance; then one transaction per entry or per detail in chronological order, the account posting \
          positive for credit and negative for debit by the entry's / detail's own indicator, dated by value date (booking date when absent) with the booking date as \
-         effective date when different, the reference kept as code, an included charge as one Expenses:Commissions posting, the closing balance asserted on the last \
+         effective date when different, the closing balance asserted on the last \
          transaction and nowhere else. End to end: funding transaction + printed import output is accepted by report::process and ends the account at the closing \
          balance. Non-trivial = imported statement; distinct by XML."
             .to_string()
